@@ -25,7 +25,7 @@ def gen_dep_type(rng, w, fids, utab, corpus_enc, depth=1, allow_combo=True):
     r = rng.random()
     if allow_combo and depth > 0 and r < 0.22:
         kind = rng.choice([2, 2, 3])
-        return [kind] + [gen_dep_type(rng, w, fids, utab, corpus_enc, depth - 1, False) for _ in range(2)]
+        return [kind] + [gen_dep_type(rng, w, fids, utab, corpus_enc, depth - 1, depth > 1) for _ in range(2)]
     r = rng.random()
     if r < 0.3:
         pool = rng.choice([[1, 2, 3, 7], ["a", "ab", "b"], [1, 2, 3, 7], [1, "a", 2]])
@@ -67,6 +67,55 @@ def gen_dep_program(rng, steer=None):
     n = rng.randint(2, 6)
     dep_pos = rng.randrange(npos)
     static_pool = [0, INT, STR, TUPLE, LIST, DICT] + w.user_ids()
+    if steer == "mixed":
+        # ranks mixing a dependent and a static method that are unordered for the argument: a diamond C(A, B) with
+        # Dependent[A, p] against B, or two positions with crossing specificity
+        spec = [{"kind": "plain", "bases": [], "meths": []}, {"kind": "plain", "bases": [], "meths": []},
+                {"kind": "plain", "bases": [0, 1], "meths": []}]
+        w = World(spec)
+        corpus = value_corpus(w)
+        corpus_enc = [enc_val(v, w) for v in corpus]
+        A, B, C = w.user_ids()
+        utab = {}
+        defs = []
+        if rng.random() < 0.5:
+            npos = 1
+            for i, (bound, other) in enumerate([(A, B), (B, A)][: rng.randint(1, 2)]):
+                fid = 10 + i
+                utab[fid] = [e for e in corpus_enc if rng.random() < 0.5]
+                defs.append({"id": 2 * i, "pos": [[9, fid, [0, bound]]], "npos_req": 1, "kw": [], "prio": 0})
+                if rng.random() < 0.8:
+                    defs.append({"id": 2 * i + 1, "pos": [[0, other]], "npos_req": 1, "kw": [], "prio": 0})
+            if rng.random() < 0.5:
+                defs.append({"id": 9, "pos": [[0, 0]], "npos_req": 1, "kw": [], "prio": 0})
+            calls = [{"vals": [e]} for e in corpus_enc if e[0] == 7] + [{"vals": [rng.choice(corpus_enc)]} for _ in range(4)]
+        else:
+            npos = 2
+            lit = [8, [0, INT]] + [enc_val(v) for v in rng.sample([0, 1, 2, 3], rng.randint(1, 2))]
+            defs = [{"id": 0, "pos": [lit, [0, 0]], "npos_req": 2, "kw": [], "prio": 0},
+                    {"id": 1, "pos": [[0, INT], [0, INT]], "npos_req": 2, "kw": [], "prio": 0}]
+            if rng.random() < 0.5:
+                defs.append({"id": 2, "pos": [[0, 0], [0, 0]], "npos_req": 2, "kw": [], "prio": 0})
+            ints = [enc_val(v) for v in (0, 1, 2, 3, 7)]
+            calls = [{"vals": [rng.choice(ints), rng.choice(ints + [enc_val("a")])]} for _ in range(12)]
+        rng.shuffle(defs)
+        return {"spec": spec, "defs": defs, "utab": {str(k): v for k, v in utab.items()}, "calls": calls}
+    if steer == "kwonly":
+        # value-dependent types on keyword-only parameters
+        pool = rng.choice([[1, 2, 3, 7], ["a", "ab", "b"]])
+        cls = INT if isinstance(pool[0], int) else STR
+        for i in range(rng.randint(1, 4)):
+            vals = rng.sample(pool, rng.randint(1, 2))
+            kwt = [8, [0, cls]] + [enc_val(v) for v in vals]
+            if rng.random() < 0.3:
+                fid = fids[0]; fids[0] += 1
+                utab[fid] = [e for e in corpus_enc if rng.random() < 0.5]
+                kwt = [9, fid, [0, cls]]
+            defs.append({"id": i, "pos": [[0, rng.choice([0, INT, STR])]], "npos_req": 1, "kw": [[0, kwt, True]], "prio": 0})
+        if rng.random() < 0.6:
+            defs.append({"id": 8, "pos": [[0, 0]], "npos_req": 1, "kw": [[0, [0, 0], True]], "prio": 0})
+        calls = [{"vals": [rng.choice(corpus_enc)], "kwvals": {"0": enc_val(rng.choice(pool + [99, "zz"]))}} for _ in range(14)]
+        return {"spec": spec, "defs": defs, "utab": {str(k): v for k, v in utab.items()}, "calls": calls}
     if steer == "literals":
         # many Literal methods on one position: both sides of the lookup-table threshold, overlapping or disjoint
         n = rng.randint(2, 7)
@@ -120,15 +169,18 @@ def eval_dep_program(prog, hook=True):
     ut = [[int(f)] + vals for f, vals in prog.get("utab", {}).items()]
     queries = []
     pyvals = []
+    pykw = []
     for call in prog["calls"]:
         vs = [dec_val(e, w) for e in call["vals"]]
         pyvals.append(vs)
-        key = [[[0, cls_of_value(w, v)] for v in vs], []]
-        queries.append([0, key, slot_args(call["vals"])])
+        kwv = {k: dec_val(e, w) for k, e in call.get("kwvals", {}).items()}
+        pykw.append({f"k{k}": v for k, v in kwv.items()})
+        key = [[[0, cls_of_value(w, v)] for v in vs], [[int(k), [0, cls_of_value(w, v)]] for k, v in kwv.items()]]
+        queries.append([0, key, slot_args(call["vals"]) + [[[1, int(k)], e] for k, e in call.get("kwvals", {}).items()]])
     mres = model.run_cases([[20, w.encode(), ut, mms, queries]])[0]
     out = []
-    for call, vs, mo in zip(prog["calls"], pyvals, mres):
-        o, entered = b.call(vs)
+    for call, vs, kws, mo in zip(prog["calls"], pyvals, pykw, mres):
+        o, entered = b.call(vs, kws)
         received = [dict(e[1]) for e in b.log]
         out.append({"impl": impl_kind(o), "impl_raw": o, "entered": entered, "received": received,
                     "predlog": list(b.predlog), "model": dec_dout(mo)})
